@@ -478,9 +478,11 @@ def moma_case(case):
         if "sol" not in used:
             # the default reference could not be computed: the model itself is infeasible -> pfba raised
             fba = lpexact.certified(gennet.net_lp(net))
-            ok = exc is not None and fba[0] == "infeasible" and type(exc).__name__ == "Infeasible"
+            ok = exc is not None and ((fba[0] == "infeasible" and type(exc).__name__ == "Infeasible") or
+                                      (fba[0] == "unbounded" and type(exc).__name__ == "Unbounded"))
             if ok:
-                return None, {"skipped": True, "stats": {"kind": "moma", "skipped": "default reference: model infeasible"}}
+                # no optimal reference exists (the property quantifies over references that are optimal for the model)
+                return None, {"skipped": True, "stats": {"kind": "moma", "skipped": "default reference: model %s" % fba[0]}}
             ref = [F(0)] * len(ids)
         else:
             ref = [qf(used["sol"].fluxes[i]) for i in ids]
@@ -654,8 +656,9 @@ def room_case(case):
     fba = lpexact.certified(gennet.net_lp(net))
     if ref_sol is None:
         if "sol" not in used:
-            if exc is not None and fba[0] == "infeasible" and type(exc).__name__ == "Infeasible":
-                return None, {"skipped": True, "stats": {"kind": "room", "skipped": "default reference: model infeasible"}}
+            if exc is not None and ((fba[0] == "infeasible" and type(exc).__name__ == "Infeasible") or
+                                    (fba[0] == "unbounded" and type(exc).__name__ == "Unbounded")):
+                return None, {"skipped": True, "stats": {"kind": "room", "skipped": "default reference: model %s" % fba[0]}}
             ref = [F(0)] * n
         else:
             ref = [qf(used["sol"].fluxes[i]) for i in ids]
